@@ -308,10 +308,18 @@ fn run_case(_ctx: &mut (), c: &J, _n: u64) -> Outcome {
         Ok(o) => o,
         Err(_) => Outcome { viol: Some(("sio-panic", format!("panic outside a guarded call at {}", last_panic()))), class: "harness".into() },
     };
-    if o.viol.as_ref().map(|v| v.0 == "sio-panic" || v.0 == "sio-path").unwrap_or(false) {
-        // after a panic the container's lock is poisoned and every destructor would panic again
-        std::mem::forget(run);
-    } else if catch_unwind(AssertUnwindSafe(move || drop(run))).is_err() {
+    // after a panic the container's lock is poisoned and destructors panic again: every object is
+    // dropped on its own (a panic while another one unwinds would abort the process; leaking them
+    // instead costs tens of gigabytes over a thorough run)
+    let after_panic = o.viol.as_ref().map(|v| v.0 == "sio-panic" || v.0 == "sio-path").unwrap_or(false);
+    let Run { pkg, med, hs, .. } = run;
+    let mut drop_panicked = false;
+    for h in hs {
+        drop_panicked |= catch_unwind(AssertUnwindSafe(move || drop(h))).is_err();
+    }
+    drop_panicked |= catch_unwind(AssertUnwindSafe(move || drop(pkg))).is_err();
+    drop(med);
+    if drop_panicked && !after_panic {
         return Outcome { viol: Some(("sio-panic", format!("dropping the handles and the package panicked at {}", last_panic()))), class: o.class };
     }
     o
